@@ -26,6 +26,16 @@ import (
 func (k *KVStore) evictTable(t *table.Table) error {
 	var total int
 	var evictErr error
+
+	// The table being written to cannot be compacted into itself: PutRaw would
+	// append the entry to the same table and the Delete below would then remove
+	// that fresh copy. Seal it and continue with a new head table.
+	if len(k.tables) != 0 && k.tables[len(k.tables)-1] == t {
+		if err := k.makeTable(); err != nil {
+			return err
+		}
+	}
+
 	t.Range(func(hkey uint64, e storage.Entry) bool {
 		entry, _ := t.GetRaw(hkey)
 		err := k.PutRaw(hkey, entry)
